@@ -178,8 +178,10 @@ StepLen(cfg, m0, t) ==
               \* announcement if there is any element, the loop, ascend - collapsed into one step
               LET m1 == Desc(cfg, m) IN
               IF m1.status # "run" THEN m1
-              ELSE LET m2 == IF IsZeroDig(dig) THEN m1 ELSE Alloc(cfg, m1, 0) IN
-                   IF m2.status # "run" THEN m2 ELSE Pop(PushV(Asc(m2), [rep |-> dig]))
+              ELSE LET total == SatMul(n, ElemSize(cfg.E, t.t))      \* chunk announcements add up to count * size_of::<T>():
+                       m2 == IF IsZeroDig(dig) THEN m1               \* nothing bounds it when elements take no input (known finding C09)
+                             ELSE Hold(Alloc(cfg, m1, total), total)
+                   IN IF m2.status # "run" THEN m2 ELSE Pop(PushV(Asc(m2), [rep |-> dig]))
          ELSE LET m1 == Desc(cfg, m) IN
               IF m1.status # "run" THEN m1
               ELSE Cont(PushV(m1, <<>>), <<Fr("chunks", t.t, n, 0)>>
